@@ -402,3 +402,10 @@ ADDENDA12 = {
 }
 for _p, _t in ADDENDA12.items():
     CLAIMED[_p]['text'] = CLAIMED[_p]['text'].rstrip() + ' ' + _t
+
+ADDENDA13 = {
+    'C19': "(U, extended) every call site of a builder that takes a requested initial value as an optional parameter named like the option passes it (known finding: the --poisson "
+           "path calls create_branch_model() without rate_init).",
+}
+for _p, _t in ADDENDA13.items():
+    CLAIMED[_p]['text'] = CLAIMED[_p]['text'].rstrip() + ' ' + _t
